@@ -66,6 +66,9 @@ void compute_delj(double *dx, double *MInt, double *VInt,
             delj[ii] = (-epsj*wj + epsj*VInt[ii] - VInt[ii])/(wj - epsj*wj);
         else
             delj[ii] = 0.5;
+        /* Filter out edge cases (exp overflow), as the Python version does. */
+        if(isnan(delj[ii]) || isinf(delj[ii]))
+            delj[ii] = 0.5;
     }
 }
 
